@@ -108,7 +108,7 @@ CHECKS = {
          'random strings over the alphabet and an oracle through Parser.parse.',
     design='7/C15',
     note='alphabet: ASCII + U+0080..U+024F + CJK (no Greek: final-sigma rule); str methods modelled; 1 known finding.',
-    technique='Coq proof (list induction; finite table facts by vm_compute lifted to all strings) + generated case table + correspondence'),
+    technique='Coq proof (list induction; finite table facts by vm_compute lifted to all strings) + generated case table + ast translator for LEFT/RIGHT/MID (slice terms proved equal to the model) + correspondence'),
  'C11': dict(
     text='Coq theorems for item lists of any length and nesting over a transcription of iflatten/inumbers/parse_criteria and '
          'the aggregates (statistics functions as textbook definitions in exact arithmetic): regrouping invariance for every '
